@@ -85,7 +85,7 @@ def full_traversal_driver(ctx, cfg, a, body, owners, cl, owner_local, finisher_b
         # index-driven form: the driver folds directly over `lo..hi` == the owner's claimed range and the closure moves out slot i of the owner's
         # storage per index, disowning it (ownership.indexed_traversal states the conditions)
         from ..ownership import range_driver, indexed_traversal
-        if range_driver(d) is not None:
+        if range_driver(d, a) is not None:
             for cv in [t for x in d_args for t in find_in(x, lambda t: isinstance(t, tuple) and len(t) == 3 and t[0] == "A" and isinstance(t[1], tuple) and t[1][0] == "closure")]:
                 cb = db.by_path.get(cv[1][1])
                 if cb is None:
